@@ -412,3 +412,21 @@ func (w *World) yield(mu *sync.Mutex) {
 	w.sim.Probe("yield.poolMu")
 	w.sim.Park(op)
 }
+
+// yieldPoint is ctlog.VerifYieldPoint: a pool's done channel was just closed.
+// Single-instance runs only (the hook carries no identity).
+func (w *World) yieldPoint() {
+	if !w.prof.Yield || w.auto || w.noYield || len(w.insts) != 1 {
+		return
+	}
+	in := w.insts[0]
+	if in.dead {
+		select {}
+	}
+	if in.log == nil || in.log.VerifPoolMuHeld() {
+		return // closing under poolMu (eviction, sequencer exit): parking here would wedge everybody else
+	}
+	op := &core.Op{ID: w.sim.NewOpID(in.idx, in.inc, "yield", "close"), Inst: in.idx, Inc: in.inc, Kind: "yield", Key: "close", Payload: &pendingOp{}}
+	w.sim.Probe("yield.close")
+	w.sim.Park(op)
+}
